@@ -307,6 +307,44 @@ func c07refreshInFlightBody() {
 	mark := len(cl.Log)
 	c.Send(resp.Encode(resp.Cmd("GET", k0)))
 	sched.WaitQuiescent()
+	fault := sched.Choose(sched.ClsInput, 2, "the connection carrying the refresh is lost") == 1
+	if fault {
+		// the node that was asked loses its connections while its answer is still in flight: this refresh fails
+		asked := ""
+		for _, e := range cl.Log {
+			if strings.EqualFold(e.Args[0], "cluster") {
+				asked = e.Node
+			}
+		}
+		cl.HoldCluster = false
+		cl.NodeByAddrID(asked).ResetConns()
+		sched.WaitQuiescent()
+		// (the GET may have been lost with the connection; the client gets an error reply then)
+		if v, err := c.Read(); err != nil {
+			sched.Fail("downstream-connection-lost / refresh in flight", err.Error())
+			return
+		} else if v.Kind != '-' && !resp.Equal(v, resp.BulkS("1")) {
+			sched.Fail("wrong-reply / refresh in flight", fmt.Sprintf("GET %s: %s", k0, v))
+			return
+		}
+		redirected := cl.Redirects(mark) > 0
+		s.RefreshRound()
+		s.RefreshRound()
+		s.RefreshRound()
+		mark = len(cl.Log)
+		v, err := c.Do("GET", k0)
+		if err != nil || !resp.Equal(v, resp.BulkS("1")) {
+			sched.Fail("error-reply-although-backend-reachable / after the refresh connection was lost", fmt.Sprintf("GET %s: %s %v", k0, v, err))
+			return
+		}
+		sched.WaitQuiescent()
+		if r := cl.Redirects(mark); redirected && r > 0 {
+			sched.Fail("still-redirected-after-two-refresh-rounds / the connection carrying the first refresh was lost",
+				fmt.Sprintf("group 0 moved, GET was redirected (refresh triggered), the asked node %s lost its connections before answering, three refresh pauses passed, the next GET was redirected %d more times", asked, r))
+		}
+		sched.SetOutcome(fmt.Sprintf("refresh connection lost, redirected=%v", redirected))
+		return
+	}
 	cl.HoldCluster = false
 	v, err := c.Read()
 	if err != nil || !resp.Equal(v, resp.BulkS("1")) {
